@@ -97,3 +97,26 @@ package destination
 //@     }
 //@   }
 //@ }
+
+// C07 (part): Equals() returns false only for Destinations whose
+// serialisations differ, and true only for serialisations of equal length
+// (both parsed from arbitrary inputs; Equals and the serialisers are executed
+// from their bodies, the parser through its contract).  The remaining half -
+// true only for byte-equal serialisations - is not decided by the solvers
+// within the budget and is not claimed.
+//@ option C07_DestinationEqualsIsByteEquality nocontract KeysAndCert.Bytes
+//@ option C07_DestinationEqualsIsByteEquality nocontract Destination.Bytes
+//@ lemma C07_DestinationEqualsIsByteEquality(a []byte, b []byte) {
+//@   d1, _, e1 := ReadDestination(a)
+//@   d2, _, e2 := ReadDestination(b)
+//@   if e1 == nil && e2 == nil {
+//@     b1, x1 := d1.Bytes()
+//@     b2, x2 := d2.Bytes()
+//@     assert(x1 == nil && x2 == nil)
+//@     if (&d1).Equals(&d2) {
+//@       assert(len(b1) == len(b2))
+//@     } else {
+//@       assert(!seqeq(b1, b2))
+//@     }
+//@   }
+//@ }
